@@ -158,8 +158,16 @@ class _QueryResponse:
         """Return answer sets that will be queued."""
         ucast = {r: self._additionals[r] for r in self._ucast}
         mcast_now = {r: self._additionals[r] for r in self._mcast_now}
-        mcast_aggregate = {r: self._additionals[r] for r in self._mcast_aggregate}
-        mcast_aggregate_last_second = {r: self._additionals[r] for r in self._mcast_aggregate_last_second}
+        # A record that goes out at once for one question of the query, as an
+        # answer or as an additional record, need not follow from a queue for
+        # another question of the same query
+        sent_now: Set[DNSRecord] = set(mcast_now)
+        for additionals in mcast_now.values():
+            sent_now.update(additionals)
+        mcast_aggregate = {r: self._additionals[r] for r in self._mcast_aggregate if r not in sent_now}
+        mcast_aggregate_last_second = {
+            r: self._additionals[r] for r in self._mcast_aggregate_last_second if r not in sent_now
+        }
         return QuestionAnswers(ucast, mcast_now, mcast_aggregate, mcast_aggregate_last_second)
 
     def _has_mcast_within_one_quarter_ttl(self, record: DNSRecord) -> bool:
@@ -444,6 +452,9 @@ class QueryHandler:
             # as we know its reachable from that socket
             self.zc.async_send(out, addr, port, v6_flow_scope, transport)
         if question_answers.mcast_now:
+            # What goes out now need not follow from the queues within the same second
+            self.out_queue.async_remove_sent(question_answers.mcast_now)
+            self.out_delay_queue.async_remove_sent(question_answers.mcast_now)
             self.zc.async_send(construct_outgoing_multicast_answers(question_answers.mcast_now))
         if not question_answers.mcast_aggregate and not question_answers.mcast_aggregate_last_second:
             return
